@@ -245,6 +245,14 @@ pub fn synth(rng: &mut Rng, cfg: &SynthCfg) -> Option<Pos> {
         _ => 0,
     };
     p.fmn = 1 + rng.below(120) as u32;
+    // now and then counters far beyond normal play (legal: a FEN may carry any clock and move number)
+    if rng.chance(1, 40) {
+        p.hmc = *rng.pick(&[150u32, 255, 256, 1000, 65_536, 3_000_000]);
+        p.fmn = p.fmn.max(p.hmc / 2 + 1);
+    }
+    if rng.chance(1, 40) {
+        p.fmn = *rng.pick(&[255u32, 256, 65_535, 65_536, 1_000_000, 1_000_000_000]);
+    }
     if !p.is_legal_position() {
         return None;
     }
